@@ -197,6 +197,27 @@ Theorem C09_assertion_every_return_needed :
 Proof. exact every_assertion_return_needed. Qed.
 Print Assumptions C09_assertion_every_return_needed.
 
+(* (c'') request objects at the authorization endpoint, both routers, GET and POST, RequestObjectSupported on / off,
+   whatever the token parses to, each claim check and the signature passing or failing: refused or accepted, and
+   accepted exactly when the option is on, the claims are consistent and the signature verifies *)
+Theorem C09_request_objects_total :
+  forall r : rshape, ro_handler true r = HRefused \/ ro_handler true r = HAccepted.
+Proof. exact ro_handler_total. Qed.
+Print Assumptions C09_request_objects_total.
+
+Theorem C09_request_object_accept_iff :
+  forall r : rshape,
+    ro_handler true r = HAccepted <->
+    ro_supported r && ro_parses r && ro_cid_ok r && ro_rt_ok r && ro_iss_ok r && ro_aud_ok r && ro_sig_ok r = true.
+Proof. exact ro_accept_iff. Qed.
+Print Assumptions C09_request_object_accept_iff.
+
+(* seeded regression: claim checks returning *oidc.Error into an `error` variable - consistent claims reach
+   AuthRequestError / WriteError with a nil pointer *)
+Theorem C09_request_object_typed_nil_refuted : exists r, ro_handler false r = HPanic.
+Proof. eexists. exact ro_typed_nil_panics. Qed.
+Print Assumptions C09_request_object_typed_nil_refuted.
+
 (* the property predicate holds on the model's answer to every input *)
 Theorem C09_spec_model : forall i : input, spec i (model i) = true.
 Proof. exact spec_model. Qed.
